@@ -45,13 +45,16 @@ class MeshSel(Contract):
                 if d >= 2:
                     out += [{'ndim': d, 'axis': ax, 'kind': 'centre'}, {'ndim': d, 'axis': ax, 'kind': 'value'}]
                 out += [{'ndim': d, 'axis': ax, 'kind': 'range'}]
+        # integer-typed corner arrays (dtype-sensitive: the requested coordinate must not be truncated into the corner dtype)
+        out += [{'ndim': 2, 'axis': 0, 'kind': 'value', 'corners': 'int'}, {'ndim': 2, 'axis': 1, 'kind': 'range', 'corners': 'int'},
+                {'ndim': 1, 'axis': 0, 'kind': 'range', 'corners': 'int'}]
         out += [{'ndim': 2, 'axis': 0, 'kind': 'value_outside'}, {'ndim': 2, 'axis': 1, 'kind': 'range_outside'}, {'ndim': 2, 'axis': 0, 'kind': 'two_kwargs'},
                 {'ndim': 2, 'axis': 0, 'kind': 'unknown_dim'}, {'ndim': 2, 'axis': 0, 'kind': 'range_len3'}, {'ndim': 2, 'axis': 0, 'kind': 'str_value'}]
         return out
 
     def pre_state(s, E, cfg):
         d, ax, k = cfg['ndim'], cfg['axis'], cfg['kind']
-        m, assume = sym_mesh(E, d, tf=1e-12, cellcond=True)
+        m, assume = sym_mesh(E, d, tf=1e-12, cellcond=True, corners=cfg.get('corners', 'float'))
         pmin, pmax, n = mesh_geometry(m)
         dim = m.attrs['_region'].attrs['_dims'][ax]
         st = State(m, [], {})
@@ -164,4 +167,13 @@ INLINED = ['Mesh._sel_convert_input (inlined into Mesh.sel / Field.sel)', 'Mesh.
 TRUSTED = ['contracts of Region.__init__, Mesh.__init__ (cell path), Mesh.point2index (discharged under C01)']
 ASSUMPTIONS = ['tolerance_factor fixed to the default 1e-12; the comparison tolerance is at most 1/1000 of a cell',
                'meshes without subregions in Mesh.sel (clipping of subregions: C14 / bounded tier)']
-MUTANTS = {}
+MUTANTS = {
+    'sel_probe_point_keeps_int_dtype': {'expect': 'first kept cell', 'module': 'mesh', 'contract': 'Mesh.sel', 'config': {'ndim': 1, 'axis': 0, 'kind': 'range', 'corners': 'int'},
+                                        'old': """                    test_point = self.region.pmin.copy().astype(
+                        max(self.region.pmin.dtype, type(point))
+                    )""", 'new': """                    test_point = self.region.pmin.copy()"""},
+    'range_upper_exclusive': {'module': 'mesh', 'contract': 'Mesh.sel', 'config': {'ndim': 2, 'axis': 0, 'kind': 'range'},
+                              'old': 'max_val = selection[1] + step', 'new': 'max_val = selection[1] - step'},
+    'plane_keeps_wrong_axis': {'module': 'mesh', 'contract': 'Mesh.sel', 'config': {'ndim': 3, 'axis': 0, 'kind': 'centre'},
+                               'old': 'idxs = [i for i in range(self.region.ndim) if i != dim_index]', 'new': 'idxs = [i for i in range(self.region.ndim) if i != self.region.ndim - 1 - dim_index]'},
+}
